@@ -217,27 +217,43 @@ func checkC16(c *Ctx, w *World) {
 	updCalls := g.callsIn(g.ctor, upd)
 	closeCalls := g.callsIn(g.ctor, g.closeFn)
 	nr := 0
-	for i, r := range returnsOf(g.ctor) {
-		if nilErr, _ := allOrigins(r.Results[1], isConstNilOrigin); nilErr {
-			continue
-		}
-		after := false
-		for _, u := range updCalls {
-			if mayPrecede(u, r) {
-				after = true
+	if len(updCalls) > 0 {
+		ccs := newCondSpace(g.ctor, recOf(eqAtom("updOK", isVal(updCalls[0]), isNil)), "updOK")
+		for i, vr := range ccs.VirtualReturns() {
+			r := vr.Ret
+			if nilErr, _ := allOrigins(vr.Vals[1], isConstNilOrigin); nilErr {
+				continue
 			}
-		}
-		if !after {
-			continue
-		}
-		nr++
-		released := false
-		for _, cl := range closeCalls {
-			if dominatesInstr(cl, r) && cl.Call.Args[0] == updCalls[0].Call.Args[0] {
-				released = true
+			after := false
+			for _, u := range updCalls {
+				if mayPrecede(u, r) {
+					after = true
+				}
 			}
+			if !after {
+				continue
+			}
+			// the ways of arriving on which the construction failed: all of them when the returned error is made here,
+			// those with a failed update when the update's own error is handed on
+			failed := vr.Cond
+			if isVal(updCalls[0])(vr.Vals[1]) {
+				failed = and(vr.Cond, ccs.Not(ccs.Atom("updOK")))
+				if !ccs.Satisfiable(failed) {
+					continue
+				}
+			}
+			nr++
+			released := false
+			for _, cl := range closeCalls {
+				if cl.Call.Args[0] != updCalls[0].Call.Args[0] || !mayPrecede(cl, r) {
+					continue
+				}
+				if imp, _ := ccs.Implies(failed, ccs.Reach(cl)); imp || dominatesInstr(cl, r) {
+					released = true
+				}
+			}
+			c.check(released, "C16.ctor", fmt.Sprintf("NewGCPMultiEndpoint error return#%d", i+1), p.ipos(r), "a construction that fails after pools may have been dialed closes the partially built object first", "a failed construction returns without releasing the pools and monitors it already created")
 		}
-		c.check(released, "C16.ctor", fmt.Sprintf("NewGCPMultiEndpoint error return#%d", i+1), p.ipos(r), "a construction that fails after pools may have been dialed closes the partially built object first", "a failed construction returns without releasing the pools and monitors it already created")
 	}
 	c.floor("C16.ctor", nr, 1)
 
@@ -306,15 +322,19 @@ func checkC16(c *Ctx, w *World) {
 			}
 		}
 		// the constructor hands the object out only after a successful first update
-		for _, r := range returnsOf(g.ctor) {
-			if nilObj, _ := allOrigins(r.Results[0], isConstNilOrigin); nilObj {
-				continue
-			}
-			okAfter := false
-			for _, u := range g.callsIn(g.ctor, upd) {
-				ucs := newCondSpace(g.ctor, recOf(eqAtom("updOK", isVal(u), isNil)), "updOK")
-				if imp, _ := ucs.Implies(ucs.Reach(r), ucs.Atom("updOK")); imp && ucs.Seen("updOK") {
-					okAfter = true
+		if len(g.callsIn(g.ctor, upd)) == 0 {
+			broken = append(broken, "NewGCPMultiEndpoint does not perform a first update")
+		}
+		for _, u := range g.callsIn(g.ctor, upd) {
+			ucs := newCondSpace(g.ctor, recOf(eqAtom("updOK", isVal(u), isNil)), "updOK")
+			okAfter := ucs.Seen("updOK")
+			for _, vr := range ucs.VirtualReturns() {
+				// (a merged `return gme, err` is split per way of arriving)
+				if nilObj, _ := allOrigins(vr.Vals[0], isConstNilOrigin); nilObj {
+					continue
+				}
+				if imp, _ := ucs.Implies(vr.Cond, ucs.Atom("updOK")); !imp {
+					okAfter = false
 				}
 			}
 			if !okAfter {
